@@ -205,8 +205,11 @@ def run(prog: Program, L: Ledger) -> None:
     if not (att0 and call0 and setl):
         raise AnalysisError("DisplacementMove anchors missing")
     rel = att0.module.relpath
-    att = flat(prog, att0, dm)
-    call = flat(prog, call0, dm)
+    # extracted public helpers (select_label, get_label_indices, calculate_translation …) are seen through; the anchors of
+    # the rules stay calls
+    KEEP11 = ("attempt_displacement", "check_move", "register_success", "register_failure", "set_labels", "reset", "calculate", "integrate", "on_atoms_changed", "to_dict", "from_dict")
+    att = flat(prog, att0, dm, keep=KEEP11, public_methods=True)
+    call = flat(prog, call0, dm, keep=KEEP11, public_methods=True)
 
     # ------------------------------------------------------------------ D1
     # abstract run of one attempt: the array handed to set_positions, followed back to its allocation and stores
@@ -377,7 +380,7 @@ def run(prog: Program, L: Ledger) -> None:
     cc0 = cd.methods.get("__call__")
     if cc0 is None:
         raise AnalysisError("CompositeDisplacementMove.__call__ missing")
-    cc = flat(prog, cc0, cd)
+    cc = flat(prog, cc0, cd, keep=KEEP11, public_methods=True)
     body = cc.body()
     first = body[0] if body else None
     reset_ok = isinstance(first, ast.Expr) and isinstance(first.value, ast.Call) and norm(first.value.func) == "self.reset"
@@ -410,7 +413,27 @@ def run(prog: Program, L: Ledger) -> None:
         # second argument: the non-None entries of self.displaced_labels
         ok_second = isinstance(src, ast.ListComp) and len(src.generators) == 1 and norm(src.generators[0].iter) == "self.displaced_labels" and len(src.generators[0].ifs) == 1 \
             and norm(src.generators[0].ifs[0]) == f"{norm(src.generators[0].target)} is not None" and norm(src.elt) == norm(src.generators[0].target)
-        okc = a0 == f"{mv}.unique_labels" and ok_second
+        # … or a local list that starts empty before the loop and receives, on the success path only, exactly what
+        # register_success records for the child (decided below from the exhaustive evaluation of one iteration)
+        running = None
+        if not ok_second and isinstance(c.args[1] if len(c.args) > 1 else None, ast.Name):
+            nm_ = c.args[1].id
+            defs_ = [st_ for st_ in walk_no_nested(cc.node) if isinstance(st_, (ast.Assign, ast.AnnAssign)) and st_.value is not None
+                     and any(isinstance(t_, ast.Name) and t_.id == nm_ for t_ in (st_.targets if isinstance(st_, ast.Assign) else [st_.target]))]
+            before_loop = [st_ for st_ in body[: body.index(lp)] if st_ in defs_]
+            muts_ = [c_ for c_ in calls_in(cc.node) if isinstance(c_.func, ast.Attribute) and isinstance(c_.func.value, ast.Name) and c_.func.value.id == nm_]
+            in_loop = {id(x) for x in ast.walk(lp)}
+            if len(defs_) == 1 and len(before_loop) == 1 and norm(defs_[0].value) in ("[]", "list()") and muts_ and all(c_.func.attr == "append" and len(c_.args) == 1 and id(c_) in in_loop for c_ in muts_):
+                rs_ = cd.methods.get("register_success")
+                rec = None
+                if rs_ is not None:
+                    pn = [a_.arg for a_ in rs_.node.args.args][1:2]
+                    for c_ in calls_in(rs_.node):
+                        if norm(c_.func) == "self.displaced_labels.append" and len(c_.args) == 1 and pn:
+                            rec = norm(c_.args[0]).replace(pn[0] + ".", mv + ".")
+                if rec is not None and all(norm(c_.args[0]) == rec for c_ in muts_):
+                    running = (nm_, rec)
+        okc = a0 == f"{mv}.unique_labels" and (ok_second or running is not None)
     L.check(okc, "D4", "CompositeDisplacementMove.__call__:candidates", f"{rel}:{cand[0].lineno if cand else lp.lineno}",
             "candidates are not setdiff(child.unique_labels, labels already displaced in this call)", "the same particle is displaced twice in one composite call", norm(cand[0].value)[:120] if cand else "")
     # one child iteration, exhaustively: number of candidates × outcome of the child
@@ -419,7 +442,7 @@ def run(prog: Program, L: Ledger) -> None:
     for k in (0, 2):
         for moved in (True, False):
             events = []
-            env = {f"{mv}(context)": moved, "__trace__": []}
+            env = {f"{mv}(context)": moved, "__trace__": [], f"{mv}.displaced_labels": 5}
             for al in aliases:
                 env[f"len({al})"] = k
                 env[f"{al}.size"] = k
@@ -462,6 +485,10 @@ def run(prog: Program, L: Ledger) -> None:
             continue
         if len(draws) != 1 or len(tl) != 1 or tl[0][2] != 5 or len(childcalls) != 1 or evs.index(tl[0]) > childcalls[0]:
             ok_choice, why_choice = False, f"{case}: draws {[d[1][:50] for d in draws]}, label stores {[(t_[1], t_[2]) for t_ in tl]}, child calls {len(childcalls)}"
+        if running is not None:
+            apps = [e_[1] for e_ in evs if e_[0] == "call" and e_[1].startswith(f"{running[0]}.append(")]
+            if apps != ([f"{running[0]}.append({running[1]})"] if moved else []):
+                ok_reg, why_reg = False, f"{case}: the running list of displaced labels receives {apps}"
         want = [f"self.register_success({mv})"] if moved else ["self.register_failure()"]
         if regs_ != want or r in ("return", "break", "raise"):
             ok_reg, why_reg = False, f"{case}: registrations {regs_}, expected {want}"
